@@ -698,8 +698,12 @@ def execute(case, props=('C07', 'C08', 'C09', 'C13'), scratch=None):
                     stats['splits_ok' if ok else 'splits_refused'] += 1
                 else:
                     stats['trims_ok' if ok else 'trims_refused'] += 1
-                if 'C13' in props or 'C07' in props:
-                    after_sets, _ = union_sets(s, obj)
+                after_sets, _ = union_sets(s, obj)
+                if ok:
+                    # an incremental update records sampling progress only;
+                    # it cannot (and is never used to) follow a restructured
+                    # union, so an earlier full write is void from here on
+                    wrote0 = False
                 if kind == 'trim' and ok and after_sets is not None and \
                         before_sets is not None:
                     gone = [st for st in before_sets if st not in after_sets]
